@@ -1,7 +1,7 @@
 (** Executable wrapper of the loading pipeline model: text -> tokens -> generic model tree,
     printed in the format of harness/implrun/src/load.rs + dump_gen.rs. *)
 From Coq Require Import Ascii String List Bool NArith ZArith.
-From A2L Require Import Base.Sx Base.StableSort Text.Escape Text.IntText Lex.Tokenizer Gram.Spec Gram.PState Gram.Parser
+From A2L Require Import Base.Sx Base.StableSort Text.Escape Text.IntText Lex.Tokenizer Gram.Spec A2ml.Types Gram.PState Gram.Parser
      Gram.Writer Gen.SpecShipped Gen.WriterShipped.
 Import ListNotations.
 Local Open Scope string_scope.
@@ -131,10 +131,57 @@ Fixpoint has_a2ml_block (toks : list token) : bool :=
   | _ => false
   end.
 
-(* LOAD case: ( text strict optspec cycles floattable ) *)
-Definition run_load (x : sx) : sx :=
+(* the type specification the library derived from an A2ML text (harness: verif_hooks::parse_a2ml) *)
+Fixpoint dec_ty (fuel : nat) (x : sx) : option a2mlty :=
+  match fuel with
+  | O => None
+  | S f =>
+      let b := list_ascii_of_string in
+      match x with
+      | SS "None" => Some TNone | SS "Char" => Some TChar | SS "Int" => Some TInt | SS "Long" => Some TLong
+      | SS "Int64" => Some TInt64 | SS "UChar" => Some TUChar | SS "UInt" => Some TUInt | SS "ULong" => Some TULong
+      | SS "UInt64" => Some TUInt64 | SS "Float" => Some TFloat | SS "Double" => Some TDouble
+      | SL [SS "A"; t; SZ d] => option_map (fun t' => TArray t' (Z.to_nat d)) (dec_ty f t)
+      | SL (SS "E" :: items) =>
+          option_map TEnum (opt_map_all (fun i => match i with
+                                                  | SL [SS n] => Some (b n, None)
+                                                  | SL [SS n; SZ v] => Some (b n, Some v)
+                                                  | _ => None end) items)
+      | SL (SS "S" :: items) => option_map TStruct (opt_map_all (dec_ty f) items)
+      | SL [SS "Q"; t] => option_map TSequence (dec_ty f t)
+      | SL (SS "T" :: items) => option_map TTaggedStruct (opt_map_all (dec_tagged f) items)
+      | SL (SS "U" :: items) => option_map TTaggedUnion (opt_map_all (dec_tagged f) items)
+      | _ => None
+      end
+  end
+with dec_tagged (fuel : nat) (x : sx) : option tagged :=
+  match fuel with
+  | O => None
+  | S f =>
+      match x with
+      | SL [SS tag; SZ isb; SZ rep; t] =>
+          option_map (fun t' => Tagged (list_ascii_of_string tag) (negb (isb =? 0)%Z) (negb (rep =? 0)%Z) t') (dec_ty f t)
+      | _ => None
+      end
+  end.
+Fixpoint sx_depth (x : sx) : nat :=
+  match x with SL l => S (fold_right (fun y m => Nat.max (sx_depth y) m) O l) | _ => 1%nat end.
+Definition dec_parsed (x : sx) : option (option a2mlty * bytes) :=
   match x with
-  | SL [SS text; SZ strict; _; _; SL ftab] =>
+  | SL [SS "OK"; t] => option_map (fun t' => (Some t', [])) (dec_ty (S (sx_depth t)) t)
+  | SL [SS "ERR"; SS msg] => Some (None, list_ascii_of_string msg)
+  | _ => None
+  end.
+Definition dec_a2ml_entry (x : sx) : option (bytes * (option a2mlty * bytes)) :=
+  match x with
+  | SL [SS txt; p] => option_map (fun v => (list_ascii_of_string txt, v)) (dec_parsed p)
+  | _ => None
+  end.
+
+(* LOAD case: ( text strict optspec cycles floattable [a2mltable builtin] )
+   a2mltable: what a2ml::parse_a2ml yields for the text of every A2ML block of the file; builtin: ( ) | ( parsed ) for the
+   a2ml_spec argument *)
+Definition run_load_with (text : string) (strict : Z) (ftab : list sx) (a2mltab : option (list sx)) (builtin : list sx) : sx :=
       match opt_map_all dec_fentry ftab with
       | None => bad_case
       | Some tab =>
@@ -144,12 +191,18 @@ Definition run_load (x : sx) : sx :=
           | TFuel => SL [SS "FUEL"]
           | TOk toks =>
               if has_include toks then SL [SS "UNSUPPORTED"; SS "include"] else
-              if has_a2ml_block toks then SL [SS "UNSUPPORTED"; SS "a2ml"] else
-              match toks with
-              | [] => SL [SS "ERR"; SL [SS "Other"; SS "EmptyFileError"]]
-              | _ =>
+              match a2mltab with
+              | None => if has_a2ml_block toks then SL [SS "UNSUPPORTED"; SS "a2ml"] else bad_case
+              | Some at_ =>
+              match toks, opt_map_all dec_a2ml_entry at_, opt_map_all dec_parsed builtin with
+              | [], _, _ => SL [SS "ERR"; SL [SS "Other"; SS "EmptyFileError"]]
+              | _, Some oracle, Some bi =>
                   let names := [[]] in
-                  match parse_file spec_shipped (init_state toks (negb (strict =? 0)%Z) 1 tab) with
+                  match bi with
+                  | [(None, msg)] => SL [SS "ERR"; SL [SS "Other"; SS "InvalidBuiltinA2mlSpec"]]
+                  | _ =>
+                  let specs := flat_map (fun p => match fst p with Some t => [t] | None => [] end) bi in
+                  match parse_file spec_shipped (init_state_a2ml toks (negb (strict =? 0)%Z) 1 tab specs oracle) with
                   | (ROk v, s) =>
                       let text1 := write_node spec_shipped posr_shipped tab names (S (S (length toks))) v 0 in
                       SL [SS "OK"; enc_value names v; SL (map (enc_diag names) (frev (ps_log s))); sb text1]
@@ -157,8 +210,20 @@ Definition run_load (x : sx) : sx :=
                   | (RPanic site, _) => SL [SS "PANIC"; SS site]
                   | (RFuel, _) => SL [SS "FUEL"]
                   end
+                  end
+              | _, _, _ => bad_case
+              end
               end
           end
+      end.
+
+Definition run_load (x : sx) : sx :=
+  match x with
+  | SL [SS text; SZ strict; _; _; SL ftab] =>
+      match tokenize_core 0 (list_ascii_of_string text) with
+      | TOk toks => if has_a2ml_block toks then run_load_with text strict ftab None [] else run_load_with text strict ftab (Some []) []
+      | _ => run_load_with text strict ftab (Some []) []
       end
+  | SL [SS text; SZ strict; _; _; SL ftab; SL a2mltab; SL builtin] => run_load_with text strict ftab (Some a2mltab) builtin
   | _ => bad_case
   end.
